@@ -656,8 +656,9 @@ class Fn:
 
     def split_defs(self, op, point, depth=0):
         """A4: the reaching definitions of an operand kept apart: list of (def block, def idx, terms).
-        Single moves/copies through temporaries are followed; constants and projected places yield one
-        entry located at `point`."""
+        Compiler temporaries and single-definition copies are transparent; a variable with several reaching
+        definitions yields one entry per definition, located at that definition, carrying the (merged) terms
+        of that definition.  Constants and projected places yield one entry located at `point`."""
         if 'const' in op or depth > 12:
             return [(point[0], point[1], self.op_terms(op, point))]
         pl = op.get('move') or op.get('copy')
@@ -667,8 +668,10 @@ class Fn:
         out = []
         if entry or not evs:
             out.append((0, 0, self.local_terms(pl['l'], (0, 0))))
+        n_defs = len(evs) + (1 if (entry or not evs) else 0)
         for e in evs:
-            if e.kind == 'assign' and e.data['k'] == 'assign' and e.data['rv']['k'] == 'use' and not e.path:
+            is_copy = e.kind == 'assign' and e.data['k'] == 'assign' and e.data['rv']['k'] == 'use' and not e.path
+            if is_copy and n_defs == 1:
                 inner = self.split_defs(e.data['rv']['op'], (e.block, e.idx), depth + 1)
                 if len(inner) == 1:
                     # a plain move: the value is unchanged, keep the latest location (most facts known)
